@@ -31,11 +31,18 @@ impl Node {
 }
 
 struct FnInfo {
+    /// takes a closure / function argument (`F: FnMut(&mut Parser) -> …`): a higher-order helper
+    is_ho: bool,
     has_self: bool,
     node: Node,
     block: syn::Block,
     in_dialect_impl: bool,
     file: String,
+}
+
+fn sig_is_ho(sig: &syn::Signature) -> bool {
+    let t = quote::quote!(#sig).to_string();
+    t.contains("FnMut") || t.contains("FnOnce") || t.contains("Fn (")
 }
 
 fn is_cfg_test(attrs: &[syn::Attribute]) -> bool {
@@ -56,6 +63,7 @@ fn collect(file: &syn::File, stem: &str, out: &mut Vec<FnInfo>) {
         for it in its {
             match it {
                 syn::Item::Fn(f) if !is_cfg_test(&f.attrs) => out.push(FnInfo {
+                    is_ho: sig_is_ho(&f.sig),
                     has_self: false,
                     node: Node { owner: format!("free:{stem}"), name: f.sig.ident.to_string() },
                     block: (*f.block).clone(),
@@ -69,7 +77,7 @@ fn collect(file: &syn::File, stem: &str, out: &mut Vec<FnInfo>) {
                     for ii in &im.items {
                         if let syn::ImplItem::Fn(f) = ii {
                             if is_cfg_test(&f.attrs) { continue; }
-                            out.push(FnInfo { has_self: f.sig.receiver().is_some(), node: Node { owner: owner.clone(), name: f.sig.ident.to_string() }, block: f.block.clone(), in_dialect_impl: is_d, file: stem.into() });
+                            out.push(FnInfo { is_ho: sig_is_ho(&f.sig), has_self: f.sig.receiver().is_some(), node: Node { owner: owner.clone(), name: f.sig.ident.to_string() }, block: f.block.clone(), in_dialect_impl: is_d, file: stem.into() });
                         }
                     }
                 }
@@ -77,7 +85,7 @@ fn collect(file: &syn::File, stem: &str, out: &mut Vec<FnInfo>) {
                     for ti in &t.items {
                         if let syn::TraitItem::Fn(f) = ti {
                             let block = f.default.clone().unwrap_or(syn::parse_quote!({}));
-                            out.push(FnInfo { has_self: f.sig.receiver().is_some(), node: Node { owner: "trait Dialect".into(), name: f.sig.ident.to_string() }, block, in_dialect_impl: true, file: stem.into() });
+                            out.push(FnInfo { is_ho: sig_is_ho(&f.sig), has_self: f.sig.receiver().is_some(), node: Node { owner: "trait Dialect".into(), name: f.sig.ident.to_string() }, block, in_dialect_impl: true, file: stem.into() });
                         }
                     }
                 }
@@ -99,6 +107,16 @@ enum Recv { SelfV, Dialect, Struct(String), Other }
 struct Calls {
     method: Vec<(Recv, String)>,
     paths: Vec<(Option<String>, String)>,
+    /// (callee name, calls made inside its arguments) for every method / path call with arguments
+    arg_calls: Vec<(String, Calls)>,
+}
+
+fn calls_in_args<'a>(args: impl Iterator<Item = &'a syn::Expr>) -> Calls {
+    let mut c = Calls { method: vec![], paths: vec![], arg_calls: vec![] };
+    for a in args {
+        c.visit_expr(a);
+    }
+    c
 }
 
 fn recv_kind(e: &syn::Expr) -> Recv {
@@ -118,7 +136,20 @@ fn recv_kind(e: &syn::Expr) -> Recv {
 }
 
 impl<'ast> Visit<'ast> for Calls {
+    fn visit_expr_call(&mut self, c: &'ast syn::ExprCall) {
+        if let syn::Expr::Path(p) = &*c.func {
+            if let Some(last) = p.path.segments.last() {
+                let sub = calls_in_args(c.args.iter());
+                if !sub.method.is_empty() || !sub.paths.is_empty() { self.arg_calls.push((last.ident.to_string(), sub)); }
+            }
+        }
+        syn::visit::visit_expr_call(self, c);
+    }
     fn visit_expr_method_call(&mut self, m: &'ast syn::ExprMethodCall) {
+        {
+            let sub = calls_in_args(m.args.iter());
+            if !sub.method.is_empty() || !sub.paths.is_empty() { self.arg_calls.push((m.method.to_string(), sub)); }
+        }
         self.method.push((recv_kind(&m.receiver), m.method.to_string()));
         syn::visit::visit_expr_method_call(self, m);
     }
@@ -171,35 +202,34 @@ pub fn run(repo: &Path, out: &Path) -> Result<(), String> {
     }
     let guarded: Vec<bool> = fns.iter().map(|f| starts_with_guard(&f.block)).collect();
 
-    let mut edges: Set<(usize, usize)> = Set::new();
-    for (u, f) in fns.iter().enumerate() {
-        let mut c = Calls { method: vec![], paths: vec![] };
-        c.visit_block(&f.block);
+    // resolve the calls found in a piece of code that lives in function `f`
+    let resolve = |c: &Calls, f: &FnInfo| -> Vec<usize> {
+        let mut out: Vec<usize> = vec![];
         for (rk, name) in &c.method {
             match rk {
                 Recv::SelfV if f.node.owner == "Parser" => {
-                    if let Some(&v) = idx.get(&Node { owner: "Parser".into(), name: name.clone() }) { edges.insert((u, v)); }
+                    if let Some(&v) = idx.get(&Node { owner: "Parser".into(), name: name.clone() }) { out.push(v); }
                 }
                 Recv::SelfV if f.in_dialect_impl => {
-                    if let Some(vs) = dialect_impls.get(name) { for &v in vs { edges.insert((u, v)); } }
+                    if let Some(vs) = dialect_impls.get(name) { for &v in vs { out.push(v); } }
                 }
                 Recv::SelfV => {
-                    if let Some(&v) = idx.get(&Node { owner: f.node.owner.clone(), name: name.clone() }) { edges.insert((u, v)); }
+                    if let Some(&v) = idx.get(&Node { owner: f.node.owner.clone(), name: name.clone() }) { out.push(v); }
                 }
                 Recv::Dialect => {
-                    if let Some(vs) = dialect_impls.get(name) { for &v in vs { edges.insert((u, v)); } }
+                    if let Some(vs) = dialect_impls.get(name) { for &v in vs { out.push(v); } }
                 }
                 Recv::Struct(ty) => {
                     // `PostgreSqlDialect {}.name(..)`: that impl's method, else the trait default
-                    if let Some(&v) = idx.get(&Node { owner: format!("{ty} as Dialect"), name: name.clone() }) { edges.insert((u, v)); }
-                    else if let Some(&v) = idx.get(&Node { owner: "trait Dialect".into(), name: name.clone() }) { edges.insert((u, v)); }
+                    if let Some(&v) = idx.get(&Node { owner: format!("{ty} as Dialect"), name: name.clone() }) { out.push(v); }
+                    else if let Some(&v) = idx.get(&Node { owner: "trait Dialect".into(), name: name.clone() }) { out.push(v); }
                 }
                 Recv::Other => {
                     if parser_fns.contains(name) {
-                        edges.insert((u, idx[&Node { owner: "Parser".into(), name: name.clone() }]));
+                        out.push(idx[&Node { owner: "Parser".into(), name: name.clone() }]);
                     } else if let Some(vs) = dialect_impls.get(name) {
                         // only methods that take the parser (can recurse): conservative = all
-                        for &v in vs { edges.insert((u, v)); }
+                        for &v in vs { out.push(v); }
                     }
                 }
             }
@@ -207,15 +237,44 @@ pub fn run(repo: &Path, out: &Path) -> Result<(), String> {
         for (q, name) in &c.paths {
             match q.as_deref() {
                 Some("Parser") | Some("Self") if f.node.owner == "Parser" || q.as_deref() == Some("Parser") => {
-                    if let Some(&v) = idx.get(&Node { owner: "Parser".into(), name: name.clone() }) { edges.insert((u, v)); }
+                    if let Some(&v) = idx.get(&Node { owner: "Parser".into(), name: name.clone() }) { out.push(v); }
                 }
                 Some("Self") => {
-                    if let Some(&v) = idx.get(&Node { owner: f.node.owner.clone(), name: name.clone() }) { edges.insert((u, v)); }
+                    if let Some(&v) = idx.get(&Node { owner: f.node.owner.clone(), name: name.clone() }) { out.push(v); }
                 }
                 None => {
-                    if let Some(&v) = idx.get(&Node { owner: format!("free:{}", f.file), name: name.clone() }) { edges.insert((u, v)); }
+                    if let Some(&v) = idx.get(&Node { owner: format!("free:{}", f.file), name: name.clone() }) { out.push(v); }
                 }
                 _ => {}
+            }
+        }
+        out
+    };
+    // names of higher-order helpers (take a closure/function argument)
+    let ho_nodes: Map<String, Vec<usize>> = {
+        let mut m: Map<String, Vec<usize>> = Map::new();
+        for (i, f) in fns.iter().enumerate() { if f.is_ho { m.entry(f.node.name.clone()).or_default().push(i); } }
+        m
+    };
+    fn all_arg_calls<'a>(c: &'a Calls, out: &mut Vec<&'a (String, Calls)>) {
+        for ac in &c.arg_calls { out.push(ac); all_arg_calls(&ac.1, out); }
+    }
+    let mut edges: Set<(usize, usize)> = Set::new();
+    for (u, f) in fns.iter().enumerate() {
+        let mut c = Calls { method: vec![], paths: vec![], arg_calls: vec![] };
+        c.visit_block(&f.block);
+        for v in resolve(&c, f) { edges.insert((u, v)); }
+        // a closure / function passed to a higher-order helper H is called BY H: edges H -> callee
+        let mut acs = vec![];
+        all_arg_calls(&c, &mut acs);
+        // Context-insensitive edges H -> callee would merge all call sites of a helper and create
+        // cycles no execution has (H called with closure A, A calls H with closure B, …). The helpers
+        // are therefore TRANSPARENT: what a closure passed from `f` calls is an edge from `f` (already
+        // in `resolve(&c, f)` because closures are visited as part of the body); the helper frames
+        // themselves are listed in `ho_helpers` and removed from sampled stacks by the dynamic check.
+        for (callee, sub) in acs {
+            if let Some(_hs) = ho_nodes.get(callee) {
+                for v in resolve(sub, f) { edges.insert((u, v)); }
             }
         }
     }
@@ -298,6 +357,7 @@ pub fn run(repo: &Path, out: &Path) -> Result<(), String> {
         "unguarded_cycles": cyc.iter().map(|c| c.iter().map(|&i| fns[i].node.label()).collect::<Vec<_>>()).collect::<Vec<_>>(),
         "discharged": discharged.iter().map(|d| serde_json::json!({"from": fns[d.0].node.label(), "to": fns[d.1].node.label(), "kind": d.2, "ref": d.3})).collect::<Vec<_>>(),
         "unmatched_discharges": unmatched_discharges,
+        "ho_helpers": fns.iter().filter(|f| f.is_ho).map(|f| f.node.label()).collect::<Vec<_>>(),
         "edges": edges.iter().map(|(u, v)| [fns[*u].node.label(), fns[*v].node.label()]).collect::<Vec<_>>(),
     });
     write_if_changed(&out.join("callgraph.json"), &serde_json::to_string(&j).unwrap());
